@@ -209,6 +209,24 @@ PLANS["X05"] = dict(
     rule="one event = one operation of a replayed history", assumptions=[], trusted_base=["TLC 2026.09.04", "CommunityModules Json/IOUtils", "quadtree/verif_walk.go (build tag verif)"],
 )
 
+# ---- X06: extended coverage -------------------------------------------------------------------------
+
+
+def run_x06(ctx):
+    cases = ctx.tlcgen("WkbGen", "WkbGen.cfg", workers=4)
+    shards = ctx.gen("accessors", cases=cases)
+    ctx.validate("CoreAccessors_Trace", shards)
+    ctx.exhaustive = True
+
+
+PLANS["X06"] = dict(
+    run=run_x06, signature=sig_default,
+    technique="TLA+ kind tables and bound accessor definitions; TLC emits the bounded shape set for replay and validates traces of Dimensions / GeoJSONType and of every orb.Bound accessor",
+    level_text="extended coverage (no listed property): Dimensions and GeoJSONType of each of the 534 shapes (collections: the maximum over the members, -1 when empty; ring and bound spelled Polygon), and for seeded integer bounds - well-formed, inverted, zero - Pad, Center, Top/Bottom/Left/Right, LeftTop/RightBottom, IsEmpty, IsZero, ToRing (counter-clockwise, closed), ToPolygon, Bound, Equal.",
+    level_note="integer coordinates (all results exact)",
+    rule="one event = one shape or one bound", assumptions=[], trusted_base=["TLC 2026.09.04", "CommunityModules Json/IOUtils"],
+)
+
 # ---- C11 -------------------------------------------------------------------------------------------
 
 
